@@ -98,7 +98,7 @@ func (lc *LineCharge) IsEmpty() bool {
 func CleanLineCharges(lines []*LineCharge) []*LineCharge {
 	var cleaned []*LineCharge
 	for _, l := range lines {
-		if l.IsEmpty() {
+		if l == nil || l.IsEmpty() {
 			continue
 		}
 		cleaned = append(cleaned, l)
